@@ -64,6 +64,38 @@ def check(case):
     return globals()['check_' + proc](case)
 
 
+def check_add_then(case):
+    """A field added to BOTH resources by one step, then a field-level step restricted to one of them: the other resource's
+    schema and rows must keep the field as it was added."""
+    fields = ['a', 'b']
+    rows = table(fields)
+    st, other = state(fields, rows)
+    how, then = case['how'], case['then']
+    df = core.dataflows
+    add = {'add_field': lambda: df.add_field('n', 'string', 'd', resources=None),
+           'add_field_opts': lambda: df.add_field('n', 'string', 'd', resources=None, title='N', constraints={'minLength': 1}),
+           'computed_dict': lambda: df.add_computed_field(target={'name': 'n', 'type': 'string'}, operation='constant', with_='d',
+                                                          resources=None),
+           'computed_str': lambda: df.add_computed_field(target='n', operation='constant', with_='d', resources=None)}[how]()
+    second, exp_fields, conv = {
+        'rename': (lambda: df.rename_fields({'n': 'm'}, resources='t'), ['a', 'b', 'm'], lambda r: {'a': r['a'], 'b': r['b'], 'm': 'd'}),
+        'delete': (lambda: df.delete_fields(['n'], resources='t'), ['a', 'b'], lambda r: {'a': r['a'], 'b': r['b']}),
+        'set_type': (lambda: df.set_type('n', type='string', title='changed', resources='t'), ['a', 'b', 'n'],
+                     lambda r: {'a': r['a'], 'b': r['b'], 'n': 'd'}),
+        'select': (lambda: df.select_fields(['a', 'n'], resources='t'), ['a', 'n'], lambda r: {'a': r['a'], 'n': 'd'}),
+    }[then]
+    label = '%s(n) on both resources, then %s restricted to one' % (how, then)
+    kind, out = run_step(st, core.Flow(add, second()))
+    if kind == 'exc':
+        return [('raises/add-then-%s' % then, '%s raises %s: %s' % (label, core.exc_sig(out), str(out)[:100]))], 'violated', True
+    other2 = [dict(o, n='d') for o in other]
+    v = base_checks(label, 'add-then-%s' % then, out, other2, exp_fields, [conv(r) for r in rows])
+    od = [f for f in out.desc['resources'][0]['schema']['fields'] if f['name'] == 'n']
+    if not v and (not od or od[0].get('title') == 'changed'):
+        v.append(('unselected-schema/add-then-%s' % then, '%s: the unselected resource\'s field n became %r' % (label, od)))
+    return v, 'ok' if not v else 'violated', True
+
+
 def check_select(case):
     fields, req, regex = case['fields'], case['req'], case['regex']
     rows = table(fields)
@@ -380,6 +412,9 @@ def cases(tier):
     for n in (1, 2):
         for vals in itertools.product(itertools.product(NUMV, repeat=2), repeat=n):
             out.append({'proc': 'computed_chain', 'vals': [list(v) for v in vals]})
+    for how in ('add_field', 'add_field_opts', 'computed_dict', 'computed_str'):
+        for then in ('rename', 'delete', 'set_type', 'select'):
+            out.append({'proc': 'add_then', 'how': how, 'then': then})
     cells = ['abc', None, 'xa']
     for n in (1, 2):
         for vals in itertools.product(itertools.product(cells, repeat=2), repeat=n):
